@@ -34,6 +34,12 @@ CHECKS = {
    note="Only the resource-free clause is decided here; 'accepting all of one provider's exports implies the instantiation validates' is exercised by C01's validation of accepted wirings. Named record/variant/enum/flags types are only used in top-level function and type kinds.",
    technique="property-based testing: differential against the reference validator's subtype relation over mutation neighbourhoods and random kinds (proptest)",
    design="C07"),
+ "C08": dict(
+   category="exploration",
+   text="Components produced by the reference toolchain from generated WIT worlds (plus fixed deep `use` chains and 26 hand-shaped WAT components) are decoded with Package::from_bytes and compared recursively with wasmparser's own typed view: import/export names in order (independent section reader), kinds, function parameter names/order/result/async, value types, record/variant/enum/flags members, resource identity as a bijection, instance type = exports, `use` provenance against the generating WIT model; two independent decodes must be mutual subtypes; and one instantiation encoded with define_components:false is nested with the original in one outer component, where the validator's own subtype relation must say original <: the unlocked-dep import type.",
+   note="`use` provenance accepts the syntactic source or any interface up the chain to the defining one (wac records the owner). Types the reference toolchain elides from a component are not expected. Shaped components that wac rejects with an error (unsupported features) are counted, not failed.",
+   technique="property-based testing: differential against the reference validator's typed view and subtype relation; generator-known provenance (proptest)",
+   design="C08"),
  "C12": dict(
    category="exploration",
    text="Grammar-derived documents (own AST model, random layout) must parse to the derivation's tree; all single-token deletions/duplications/swaps and a fixed third of an 18-token substitution pool per position, raw insertions (forbidden code points, quotes, comment openers, separators, malformed versions) and ~140 hand-written near-miss forms are decided by a reference tokenizer+recogniser written from LANGUAGE.md; wac must agree on membership, on the tree when both accept, and locate its error inside the source when both reject.",
